@@ -7,7 +7,7 @@ BOUNDS = sorted({131072 - 78, 524288 - 196, 524288 - 120, 95232 - 78, 261888 - 1
 RULE = ("one polynomial per request: random background strictly inside the bound and one spike of value +-(B-1), +-B, +-(B+1), "
         "+-6283009 at each of the 256 positions, for every bound the six parameter sets use and the boundary bounds "
         "1, (q-1)/8, (q-1)/8+1 (also 0, -1, i32::MAX); vector wrappers with the spike in every component. The expected answer is "
-        "computed independently from the definition. distinct_nontrivial = distinct requests whose spike is within 1 of the bound.")
+        "computed independently from the definition. distinct_nontrivial = distinct requests whose spike is within 1 of the bound. Rows with 256/255/128/2 offending coefficients at every bound (polynomial and vector level).")
 EXPLANATION = "Props/C18.lean proves exactness for every list, position and bound; the tie enumerates the position x boundary-value x bound grid on the code."
 ASSUMPTIONS = []
 
